@@ -1783,11 +1783,68 @@ func checkDecoderRowsCleared(c *Ctx, rule string) {
 			}
 		}
 	}
+	// a third discipline: Scan counts the row counter itself down to zero, clearing the row it leaves behind
+	// (`for ; r.n > 0; r.n-- { clear(r.collection[r.n-1]) }`): every row handed out is cleared and n ends at 0
+	countdownReset := false
+	{
+		sc0 := w.Fn("dig", "(*Result).Scan")
+		fN0 := w.Field("dig", "Result", "n")
+		fColl := w.Field("dig", "Result", "collection")
+		scanFn, _, _ := scanAnchor(w)
+		scanCalls := callsToFn(sc0, scanFn)
+		for _, h := range sc0.Blocks {
+			lp := naturalLoop(h)
+			iff, isIf := terminator(h).(*ssa.If)
+			if lp == nil || !isIf {
+				continue
+			}
+			cond, isB := iff.Cond.(*ssa.BinOp)
+			if !isB || !isLoadOfField(cond.X, fN0) {
+				continue
+			}
+			if k, isK := constInt(cond.Y); !isK || k != 0 || (cond.Op != token.GTR && cond.Op != token.NEQ) {
+				continue
+			}
+			clears, decs := false, false
+			for b := range lp {
+				for _, in := range b.Instrs {
+					switch x := in.(type) {
+					case *ssa.Call:
+						if calleeName(x) == "builtin clear" {
+							cs, cidx, cok := elemOf(x.Call.Args[0])
+							if cok && isLoadOfField(stripConv(cs), fColl) {
+								if bo, isBo := stripNum(cidx).(*ssa.BinOp); isBo && bo.Op == token.SUB && isLoadOfField(bo.X, fN0) {
+									if k, isK := constInt(bo.Y); isK && k == 1 {
+										if by, _ := reach(Site{h.Succs[0], -1}, isInstr(iff), newCuts().addInstr(x)); !by {
+											clears = true
+										}
+									}
+								}
+							}
+						}
+					case *ssa.Store:
+						if f, _ := fieldOf(x.Addr); f == fN0 {
+							if bo, isBo := x.Val.(*ssa.BinOp); isBo && bo.Op == token.SUB && isLoadOfField(bo.X, fN0) {
+								if k, isK := constInt(bo.Y); isK && k == 1 {
+									decs = true
+								}
+							} else {
+								clears = false // the counter is set to something else inside the loop
+							}
+						}
+					}
+				}
+			}
+			if clears && decs && len(scanCalls) == 1 && h.Dominates(scanCalls[0].Block()) && !lp[scanCalls[0].Block()] {
+				countdownReset = true
+			}
+		}
+	}
 	for _, r := range returnsOf(gr) {
 		n++
 		v := returnValues(r)[0]
 		s, idx, ok := elemOf(v)
-		good := clearedOnReset
+		good := clearedOnReset || countdownReset
 		if ok {
 			for _, ci := range callsNamed(gr, "builtin clear") {
 				cs, cidx, cok := elemOf(ci.Common().Args[0])
@@ -1825,7 +1882,7 @@ func checkDecoderRowsCleared(c *Ctx, rule string) {
 				}
 			}
 		})
-		okReset = resetN && clearS
+		okReset = (resetN || countdownReset) && clearS
 	}
 	c.Check(rule, "Result.Scan/reset-before-decode", sc.Pos(), okReset, "Scan resets the row counter and clears the scalar row before decoding (one decoder instance is reused for every log)")
 	// rows never share storage: what enters Result.collection is a newly made row – not the scalar row, whose
